@@ -101,6 +101,8 @@ func ExecLedger(prop string) func(t *testing.T, pa any, col *kernel.Collector) [
 }
 
 func execLedger(prop string, p *Plan, col *kernel.Collector) []kernel.Violation {
+	simStart := time.Now() // the bubble's clock: elapsed = simulated time
+	defer func() { col.AddSim(time.Since(simStart)) }()
 	ResetCrit()
 	defer InstallMapOrder(p.OrderSeed)()
 	mrand.Seed(int64(HashPlan(p) & 0x7fffffffffffffff))
